@@ -236,3 +236,35 @@ func VerifC01ScopePass() {
 // (the registry decides when a closed scope's counters are reported for the last time).
 func VerifC01SubscopeClose() { c07Prefix = "c01.registry"; c07Cycle(1, 1, 2, 2) }
 func VerifC01SubscopeCycle() { c07Prefix = "c01.registry"; c07Cycle(1, 1, 2, 0) }
+
+// VerifC01HistogramKernel: samples recorded into a histogram while report passes run; every
+// sample is delivered exactly once (the bucket counters follow the same delta protocol), and a
+// pass after the activity stopped leaves nothing behind.
+func VerifC01HistogramKernel() {
+	rec := &lockedReporter{}
+	root := newRootScope(ScopeOptions{Reporter: rec, OmitCardinalityMetrics: true, registryShardCount: 1}, 0)
+	h := root.Histogram("h", ValueBuckets{1})
+	x, y := verifrt.Float64("sample"), verifrt.Float64("sample")
+	verifrt.Assume(verifrt.And(finite(x), finite(y)))
+	var wg sync.WaitGroup
+	verifrt.Explore(2)
+	wg.Add(2)
+	go func() { defer wg.Done(); h.RecordValue(x); h.RecordValue(y) }()
+	go func() { defer wg.Done(); root.reportRegistry() }()
+	wg.Wait()
+	verifrt.StopExplore()
+	root.reportRegistry()
+	count := func() int64 {
+		var n int64
+		for _, c := range rec.calls {
+			if c.kind == "hv" && c.name == "h" {
+				n += c.i
+			}
+		}
+		return n
+	}
+	verifrt.Assert("c01.histogram.every-sample-delivered-exactly-once", count() == 2)
+	root.reportRegistry()
+	verifrt.Assert("c01.histogram.idle-pass-delivers-nothing", count() == 2)
+	verifrt.Reach("c01.histogram.end")
+}
